@@ -98,7 +98,7 @@ def load(R):
     R.spec("WF_FNREF", ["s"], "s is not None and " + " and ".join("%r in s" % k for k in FNREF_KEYS) + " and WF_ARGLIST(s['partialArgs']) and WF_ARGMAP(s['partialKwargs'])")
     R.contract("reference:FunctionReference.from_qualified_name", assumed=True,
                types={"qualified_name": TObj(), "partial_args": TObj(), "partial_kwargs": TObj(), "parameter_names": TObj(), "external": TBool}, returns=TObj("nn:FunctionReference"),
-               ensures=["result.qualified_name == qualified_name", "result.parameter_names == parameter_names",
+               ensures=["result.qualified_name == qualified_name", "result.parameter_names == parameter_names", "result.memento_fn is not None",
                         "implies(partial_args is None, len(result.partial_args) == 0)", "implies(partial_args is not None, same(result.partial_args, partial_args))",
                         "implies(partial_kwargs is None, len(result.partial_kwargs) == 0)", "implies(partial_kwargs is not None, same(result.partial_kwargs, partial_kwargs))"],
                notes="assumed here: the reference carries the name and (normalised = unchanged, for decoded values) partial arguments it is given; never raising and naming are C12's subject")
@@ -106,6 +106,9 @@ def load(R):
          enc_raises={"ValueError": []}, dec_raises={"ValueError+": [], "KeyError": []})
 
     R.contracts[C + "decode_fn_reference"].labels["touch_result"] = True
+    # C12 ("references ... to versions that no longer exist are reported as external references", "reading stored metadata never raises"): a decoded reference always has a
+    # function object behind it (proved for from_qualified_name under C12), so decoding a function-valued argument never gives up with FunctionNotFoundError
+    R.contracts[C + "decode_fn_reference"].ensures.append("result.memento_fn is not None")
     R.spec("WIRE_FWH", ["s", "v"], "WIRE_FNREF(s['fnReference'], v.fn_reference) and s['argHash'] == v.arg_hash")
     both("fn_reference_with_arg_hash", "WIRE_FWH", ["fnReference", "argHash"], TObj("nn:FunctionReferenceWithArgHash"),
          enc_raises={"ValueError": []}, dec_raises={"ValueError+": [], "KeyError": []})
@@ -202,7 +205,7 @@ def load(R):
                raises={"ValueError": []}, labels={"dict_literals_dynamic": True, "entry_axioms": ["CLASS_FACTS(obj)"]})
     R.uf("json_finite", [TObj()], TBool)
     R.contract(C + "decode_arg", prop="C11", types={"state": TObj()}, returns=TObj(),
-               ensures=["ARG1(state, result, False)", "[effect] argwire(state, result)"], raises=dict(MALFORMED, **{"Exception+": []}))
+               ensures=["ARG1(state, result, False)", "[effect] argwire(state, result)"], raises=dict({"FunctionNotFoundError": ["False"]}, **dict(MALFORMED, **{"Exception+": []})))
 
     # ---- definitional relations for nested documents in lists (closure rules, asserted by the contracts as ghost effects)
     for rel in ("fwawire", "reswire", "fnrefwire", "rtwire"):
